@@ -16,7 +16,7 @@ def status_codes():
     return {int(m.group(1)): m.group(2) for m in re.finditer(r'CODE\((\d+),\s*\w+,\s*"([^"]*)"\)', txt)}
 
 # handler-settable typed headers in their canonical written form (framing headers are the writer's business)
-HPOOL = [('Content-Type', 'text/plain'), ('Content-Type', 'application/json'), ('Cache-Control', 'no-cache'), ('Cache-Control', 'max-age=10, public'),
+HPOOL = [('Content-Type', 'text/plain'), ('Content-Type', 'application/json'), ('Content-Type', 'text/html; q=0.29'), ('Content-Type', 'text/css; q=0.58'), ('Cache-Control', 'no-cache'), ('Cache-Control', 'max-age=10, public'),
          ('Server', 'pistache/0.1'), ('Location', '/elsewhere?x=1'), ('Content-Encoding', 'gzip'), ('Access-Control-Allow-Origin', '*'),
          ('User-Agent', 'a b c'), ('Access-Control-Allow-Methods', 'GET, POST'), ('Connection', 'keep-alive')]
 CPOOL = ['a=b', 'sid=xyz; Path=/; HttpOnly', 'k=v; Max-Age=10; Secure', 'a=c', 'lang=en; Domain=example.com', 'q=1; Path=/x; Domain=d.example; Max-Age=3; Secure; HttpOnly']
